@@ -10,7 +10,7 @@
    Model.MoveLang / the natively evaluated source.  Statements only. *)
 From Coq Require Import String.
 From Coq Require Import ZArith List Bool.
-From BS Require Import Core.Base Model.Passes Proofs.PassesProofs Model.MoveLang Proofs.MoveLangProofs.
+From BS Require Import Proofs.InlineProofs Core.Base Model.Passes Proofs.PassesProofs Model.MoveLang Proofs.MoveLangProofs.
 Import ListNotations.
 
 Theorem C04_dce_preserves_events :
@@ -45,6 +45,19 @@ Theorem C04_return_stops_statement_list : forall ex e l1 l2 ev,
   exec_list ex e l1 = Ok (ev, Returned) -> exec_list ex e (l1 ++ l2) = Ok (ev, Returned).
 Proof. exact return_stops_list. Qed.
 
+(* inlining, the way kirin's Inline pastes callee bodies (a return nested in the callee's control flow becomes a return
+   of the caller): with exactly the callees admitted by AggressiveUnroll.inline_heuristic inlined - those without a return
+   nested in their control flow - every program executes what its source executes, for all programs, arguments, depths *)
+Theorem C04_heuristic_inlining_preserves_events : forall f p e s, exec_h nested_ret_free f p e s = exec f p e s.
+Proof. exact heuristic_inlining_preserves. Qed.
+Theorem C04_heuristic_inlining_preserves_runs : forall f p args, run_prog_h nested_ret_free f p args = run_prog f p args.
+Proof. exact heuristic_inlining_preserves_runs. Qed.
+(* the heuristic is needed: inlining every callee (the pinned behaviour) drops what follows a call that returned early *)
+Theorem C04_inlining_everything_refuted :
+  run_prog 20 inl_example [1%Z] = Ok ["a"; "fill"; "b"]%string /\
+  run_prog_h (fun _ => true) 20 inl_example [1%Z] = Ok ["a"; "fill"]%string.
+Proof. exact inline_everything_refuted. Qed.
+
 (* a subroutine with an early return called from a loop: the caller goes on after the call *)
 Local Open Scope string_scope.
 Example C04_example :
@@ -61,3 +74,6 @@ Print Assumptions C04_dce_after_cse_preserves_events.
 Print Assumptions C04_source_semantics_fuel_independent.
 Print Assumptions C04_source_semantics_deterministic.
 Print Assumptions C04_return_stops_statement_list.
+Print Assumptions C04_heuristic_inlining_preserves_events.
+Print Assumptions C04_heuristic_inlining_preserves_runs.
+Print Assumptions C04_inlining_everything_refuted.
